@@ -148,21 +148,17 @@ Proof. vm_compute. reflexivity. Qed.
 Example c01_empty_key_refuted :
   fst (h_set 0 empty_db [FBulk (bs "SET"); FBulk []; FBulk (bs "v")]) = r_err.
 Proof. vm_compute. reflexivity. Qed.
-(** mset-partial: a refused MSET (non-bulk argument after the first pair) has already
-    applied the pairs before it - failure atomicity does not hold for MSET *)
-Example c01_mset_partial_refuted :
-  exists d', h_mset 0 empty_db [FBulk (bs "MSET"); FBulk (bs "a"); FBulk (bs "1"); FBulk (bs "b"); FInt 5]
-             = (r_err, d') /\ get_entry d' (bs "a") <> None.
-Proof. eexists. split; [vm_compute; reflexivity|]. vm_compute. discriminate. Qed.
-(** setrange-empty-creates: SETRANGE on a missing key with an empty value creates the key *)
-Example c01_setrange_empty_refuted :
-  exists d', h_setrange empty_db [FBulk (bs "SETRANGE"); FBulk (bs "q"); FBulk (bs "0"); FBulk []]
-             = (r_int 0, d') /\ get_entry d' (bs "q") <> None.
-Proof. eexists. split; [vm_compute; reflexivity|]. vm_compute. discriminate. Qed.
-(** set-nx-xx / set-ex-0: option combinations Redis refuses are accepted *)
-Example c01_set_nx_xx_refuted :
-  fst (h_set 0 empty_db [FBulk (bs "SET"); FBulk (bs "a"); FBulk (bs "1"); FBulk (bs "NX"); FBulk (bs "XX")]) = r_ok.
+(** ---- former findings, repaired (974d7d6, 1a8fa0e, f4c6282, 48bcb4d): regression examples ---- *)
+Example c01_mset_atomic :
+  h_mset 0 empty_db [FBulk (bs "MSET"); FBulk (bs "a"); FBulk (bs "1"); FBulk (bs "b"); FInt 5] = (r_err, empty_db).
 Proof. vm_compute. reflexivity. Qed.
-Example c01_set_ex0_refuted :
-  fst (h_set 0 empty_db [FBulk (bs "SET"); FBulk (bs "a"); FBulk (bs "1"); FBulk (bs "EX"); FBulk (bs "0")]) = r_ok.
+Example c01_setrange_empty_creates_nothing :
+  h_setrange empty_db [FBulk (bs "SETRANGE"); FBulk (bs "q"); FBulk (bs "0"); FBulk []] = (r_int 0, empty_db).
 Proof. vm_compute. reflexivity. Qed.
+Example c01_set_nx_xx_refused :
+  h_set 0 empty_db [FBulk (bs "SET"); FBulk (bs "a"); FBulk (bs "1"); FBulk (bs "NX"); FBulk (bs "XX")] = (r_err, empty_db).
+Proof. vm_compute. reflexivity. Qed.
+Example c01_set_ex0_refused :
+  h_set 0 empty_db [FBulk (bs "SET"); FBulk (bs "a"); FBulk (bs "1"); FBulk (bs "EX"); FBulk (bs "0")] = (r_err, empty_db) /\
+  h_set 0 empty_db [FBulk (bs "SET"); FBulk (bs "a"); FBulk (bs "1"); FBulk (bs "PX"); FBulk (bs "0")] = (r_err, empty_db).
+Proof. vm_compute. split; reflexivity. Qed.
